@@ -66,6 +66,14 @@ def gen_cases(tier, seed):
                 mk(len(val), value=val, flip=[k], crc=True, srvcrc=True, buffering=1024, reads=[])
                 mk(len(val), value=val, lose=[k], crc=True, srvcrc=True, buffering=1024, reads=[])
             mk(len(val), value=val, wrongcrc=True, crc=True, srvcrc=True)
+    # an upload without CRC on the same client first, then the disturbed one with CRC
+    for n in (8, 20, 50, 200):
+        nseg = (n + 6) // 7
+        mk(n, crc=True, srvcrc=True, pre_crc_off=True)
+        for k in sorted({1, nseg, (nseg + 1) // 2}):
+            mk(n, flip=[k], crc=True, srvcrc=True, buffering=1024, reads=[], pre_crc_off=True)
+            mk(n, lose=[k], crc=True, srvcrc=True, buffering=1024, reads=[], pre_crc_off=True)
+        mk(n, wrongcrc=True, crc=True, srvcrc=True, pre_crc_off=True)
     for _ in range(100 if tier == "quick" else 1500):
         n = rng.randrange(8, 1200)
         nseg = (n + 6) // 7
